@@ -102,6 +102,12 @@ def run(ctx):
             ok = not bad and all(p.idx in none_reach for p in polls)
             ctx.ob('R08.3', 'Manager::create reached only when the pop found nothing', ok, ctx.where(root, popsw[0].term.line),
                    'the creator is reachable from the branch that found an idle object' if bad else '', construct='create:lazy')
+            # "nothing idle" is what the queue itself answered at that moment, not a count taken earlier or a constant
+            osrc = sources(an, Operand({'c': popsw[0].term.j['on']}))
+            other = sorted({s[1] for s in osrc if (s[0] == 'agg' and s[1].startswith('std::option::Option')) or (s[0] == 'call' and 'VecDeque::pop' not in s[1])})
+            ctx.ob('R08.3', 'the "no idle object" answer comes from the queue pop alone', not other, ctx.where(root, popsw[0].term.line),
+                   'the value tested can also be %s: the getter can decide that nothing is idle without asking the queue and create an object while a usable one is waiting' % other if other else '',
+                   construct='create:none-not-from-pop')
     else:
         ctx.undecide('R08.3', 'creator body not unique')
 
